@@ -1480,7 +1480,7 @@ func subGenFont(c *Ctx) (sf *subFont, depth int, gsubFree bool) {
 	subGenCmaps(r, sf)
 	if r.Bool() {
 		var inputs []int
-		gsubFree = sf.kind == "ttf" && len(sf.comps) > 0 && r.Chance(1, 8)
+		gsubFree = sf.kind == "ttf" && len(sf.comps) > 0 && r.Chance(1, 2)
 		for g := 0; g < n; g++ {
 			if gsubFree || !isComponent[g] {
 				inputs = append(inputs, g)
@@ -1719,10 +1719,10 @@ func areaSubset(c *Ctx) {
 		c.Stat("run_tries", bucket(subTries))
 		if status == "" {
 			// outside the stated domain the property check is recorded but never alarms
+			// (GSUB rules over glyphs that enter only as composite components were outside the
+			// domain before the joint closure of GSUB outputs and components; they are inside now)
 			kind := Direct
-			if outside {
-				kind = Diagnostic
-			}
+			_ = outside
 			res := c.Case(kind, "subset.check", fontArgs+glyphsArg+" res="+R, nontrivial)
 			c.Stat("check_outcome", kind+":"+res)
 		}
@@ -1814,7 +1814,7 @@ func areaSubset(c *Ctx) {
 		if sf.kind == "ttf" && sf.gsub != nil {
 			switch {
 			case outside:
-				c.Stat("domain", "outside:gsub-over-components")
+				c.Stat("domain", "inside(rule-over-components: second round needed)")
 			case gsubFree:
 				c.Stat("domain", "inside(unrestricted-gsub)")
 			default:
